@@ -22,10 +22,11 @@ func init() {
 		Level: "model_checking",
 		Rule: "history tree of all sequences of <=2 operations over all 32 property layouts (a,b in {absent,value,function,method}; _missing in {absent,method}) and of <=3 operations over 8 layouts " +
 			"(thorough: <=3 over 16 layouts, <=4 over 4) where an operation is `v := {L}`, `v := 1.bear({L})`, `v := \"s\".bear({L})`, `v := vJ.bear({L})`, `v := vJ.bro({L})`; in every final state every object is probed with " +
+			"(plus two further families: a property shadowing the built-in S with a non-callable _missing, and objects identified only by a private `_id` so that same-layout objects have identical public properties) " +
 			"o.n, o.n(9), o['n], which for n in {a,b,c}, proto, ancestors, keys, keys(private?), kindOf? against every object; states = forests, transitions = operations; " +
 			"non-trivial = forest with inheritance (at least one bear/bro); distinct = distinct operation sequence",
 		Assumptions: []string{
-			"objects are identified by an own `id` property; the names a, b, c are not defined on the built-in prototypes",
+			"objects are identified by an own `id` (or private `_id`) property; the names a, b, c are not defined on the built-in prototypes",
 			"histories are not merged (the whole history tree is explored), so no abstraction of hidden state is assumed",
 		},
 		Run:    run,
@@ -42,7 +43,19 @@ type odef struct {
 	// second family: a property that shadows a built-in name (Obj#S) and a non-callable _missing
 	S       byte `json:"s,omitempty"`        // 0 / '-', 'v', 'm'
 	MissVal bool `json:"miss_val,omitempty"` // _missing is a plain value
+	// third family: the identifying property is private (`_id`), so objects of the same layout have
+	// identical public properties and differ only in a private one
+	PID bool `json:"pid,omitempty"`
 }
+
+func (o odef) idn() string {
+	if o.PID {
+		return "_id"
+	}
+	return "id"
+}
+
+func (t tcase) idn() string { return t.Objs[0].idn() }
 
 type tcase struct {
 	Objs []odef `json:"objs"`
@@ -98,19 +111,20 @@ func (o odef) kind(n string) byte {
 }
 
 func layoutSrc(k int, o odef) string {
-	parts := []string{fmt.Sprintf("id: %d", k)}
+	id := o.idn()
+	parts := []string{fmt.Sprintf("%s: %d", id, k)}
 	for _, n := range []string{"a", "b", "S"} {
 		switch o.kind(n) {
 		case 'v':
 			parts = append(parts, fmt.Sprintf("%s: %d", n, val(k, n)))
 		case 'f':
-			parts = append(parts, fmt.Sprintf(`%s: {|s, y| ["f%s", %d, s['id], y]}`, n, n, k))
+			parts = append(parts, fmt.Sprintf(`%s: {|s, y| ["f%s", %d, s['%s], y]}`, n, n, k, id))
 		case 'm':
-			parts = append(parts, fmt.Sprintf(`%s: m{|y| ["m%s", %d, self['id], y]}`, n, n, k))
+			parts = append(parts, fmt.Sprintf(`%s: m{|y| ["m%s", %d, self['%s], y]}`, n, n, k, id))
 		}
 	}
 	if o.Miss {
-		parts = append(parts, fmt.Sprintf(`_missing: m{|n, y| ["miss", %d, self['id], n, y]}`, k))
+		parts = append(parts, fmt.Sprintf(`_missing: m{|n, y| ["miss", %d, self['%s], n, y]}`, k, id))
 	}
 	if o.MissVal {
 		parts = append(parts, fmt.Sprintf(`_missing: %d`, 9000+k))
@@ -217,7 +231,7 @@ func (t tcase) probes() []probe {
 				ps = append(ps, probe{src: v + "['" + name + "]", want: "nil", what: "index"})
 			}
 			if owner >= 0 {
-				ps = append(ps, probe{src: v + ".which('" + name + ")['id]", want: fmt.Sprint(owner), what: "which"})
+				ps = append(ps, probe{src: v + ".which('" + name + ")['" + t.idn() + "]", want: fmt.Sprint(owner), what: "which"})
 			} else {
 				ps = append(ps, probe{src: v + ".which('" + name + ")", want: "nil", what: "which"})
 			}
@@ -226,7 +240,7 @@ func (t tcase) probes() []probe {
 		// proto
 		switch p := t.parent(k); {
 		case p >= 0:
-			ps = append(ps, probe{src: fmt.Sprintf("%s.proto['id]", v), want: fmt.Sprint(p), what: "proto"})
+			ps = append(ps, probe{src: fmt.Sprintf("%s.proto['%s]", v, t.idn()), want: fmt.Sprint(p), what: "proto"})
 		case p == -1:
 			ps = append(ps, probe{src: v + ".proto == Obj", want: "true", what: "proto"})
 		case p == -2:
@@ -239,11 +253,14 @@ func (t tcase) probes() []probe {
 		for _, c := range ch[1:] {
 			ids = append(ids, fmt.Sprint(c))
 		}
-		ps = append(ps, probe{src: v + ".ancestors@{|x| x['id]}", want: "[" + strings.Join(ids, ", ") + "]", what: "ancestors"})
+		ps = append(ps, probe{src: v + ".ancestors@{|x| x['" + t.idn() + "]}", want: "[" + strings.Join(ids, ", ") + "]", what: "ancestors"})
 		last := "BaseObj"
 		ps = append(ps, probe{src: v + ".ancestors[-1] == " + last, want: "true", what: "ancestors-end"})
 		// keys
 		pub := []string{`"id"`}
+		if t.Objs[k].PID {
+			pub = nil
+		}
 		if t.Objs[k].A != '-' {
 			pub = append(pub, `"a"`)
 		}
@@ -256,6 +273,9 @@ func (t tcase) probes() []probe {
 		sort.Strings(pub)
 		ps = append(ps, probe{src: v + ".keys", want: "[" + strings.Join(pub, ", ") + "]", what: "keys"})
 		all := append([]string{}, pub...)
+		if t.Objs[k].PID {
+			all = append(all, `"_id"`)
+		}
 		if t.Objs[k].Miss || t.Objs[k].MissVal {
 			all = append(all, `"_missing"`)
 		}
@@ -353,6 +373,16 @@ func layouts(set string) []odef {
 				}
 			}
 		}
+	case "family3":
+		for _, a := range []byte{'-', 'v', 'm'} {
+			for _, b := range []byte{'-', 'f'} {
+				for _, m := range []bool{false, true} {
+					ls = append(ls, odef{A: a, B: b, Miss: m, PID: true})
+				}
+			}
+		}
+	case "family3-small":
+		ls = []odef{{A: '-', B: '-', PID: true}, {A: 'v', B: '-', PID: true}, {A: '-', B: '-', Miss: true, PID: true}, {A: 'm', B: 'f', PID: true}}
 	case "family2-small":
 		ls = []odef{{A: '-', B: '-', S: '-'}, {A: 'v', B: '-', S: 'm'}, {A: '-', B: '-', S: 'v', MissVal: true}, {A: 'm', B: '-', S: '-', Miss: true}, {A: '-', B: '-', S: '-', MissVal: true}}
 	}
@@ -442,9 +472,9 @@ func run(c *core.Ctx) {
 		depth int
 		set   string
 	}
-	plans := []plan{{1, "full"}, {2, "full"}, {3, "8"}, {2, "family2"}, {3, "family2-small"}}
+	plans := []plan{{1, "full"}, {2, "full"}, {3, "8"}, {2, "family2"}, {3, "family2-small"}, {2, "family3"}, {3, "family3-small"}}
 	if c.Thorough() {
-		plans = []plan{{1, "full"}, {2, "full"}, {3, "16"}, {4, "4"}, {2, "family2"}, {3, "family2"}}
+		plans = []plan{{1, "full"}, {2, "full"}, {3, "16"}, {4, "4"}, {2, "family2"}, {3, "family2"}, {3, "family3"}, {4, "family3-small"}}
 	}
 	c.Note("plans(depth,layout-set)", fmt.Sprint(plans))
 	n := 0
